@@ -58,6 +58,8 @@ def cases(rng, tier):
             cs.append({"line": f"cfg {C.hexs(G.gen_opcode_probe(rng, op))}", "exe": "analyze", "tags": ["cfg-probe"]})
     for _ in range(40 if tier == "quick" else 500):
         cs.append({"line": f"cfg {C.hexs(G.gen_loops(rng))}", "exe": "analyze", "tags": ["cfg-loops"]})
+    for _ in range(30 if tier == "quick" else 300):
+        cs.append({"line": f"cfg {C.hexs(G.gen_highbits(rng))}", "exe": "analyze", "tags": ["cfg-highbits"]})
     return cs
 
 
@@ -123,7 +125,7 @@ MANIFEST = {
             "with z3); Cfg/Model.lean tied by equality of the initial DOT graph and by checking every removed edge's query; "
             "SoundSat and the 0^0 admissibility are assumptions about Z3; EVM semantics restricted to pc/stack (partial by "
             "nature: gas, memory, storage, call frames are an oracle). Setup hypothesis (accepted blocks, distinct offsets, "
-            "code below 2^16) is stated explicitly; the hypothesis popBudget <= 65535 of the pipeline theorems is sufficient, not exact, for the "
-            "annotator's u16 variable counter.",
+            "code below 2^16) is stated explicitly and discharged on raw bytes by C05_pipeline_setup_exact (every block needs at most 65535 entry-stack slots: the exact condition). "
+            "Real Cancun (D27): C05_initial_cancun / C05_refined_cancun / C05_path_cancun for blocks free of the four opcodes etk's table lacks, C05_cancun_counterexample otherwise.",
     "technique": "Lean 4 proof: simulation + per-operator bit-vector lemmas + graph invariants; structural SMT-LIB text tie; z3 cross-check; reference interpreter search",
 }
